@@ -164,6 +164,8 @@ def named_kets(name):
         from toqito.states import trine
 
         return [np.asarray(v).reshape(-1) for v in trine()]
+    if name == "zero-plus":  # the pair used in the docstring examples of state_exclusion / state_distinguishability
+        return [np.array([1.0, 0.0]), np.array([1.0, 1.0]) / np.sqrt(2)]
     if name.startswith("bb84"):
         s = 1 / np.sqrt(2)
         k = [np.array([1.0, 0.0]), np.array([0.0, 1.0]), np.array([s, s]), np.array([s, -s])]
@@ -187,7 +189,7 @@ def named_kets(name):
 def build(p):
     """ensemble from JSON-able parameters -> dict(states, probs, rhos, pvec, kets, d, n, field)
 
-    kinds: pure | mixed | orthogonal | orthogonal-mixed | lindep | pair | orthopair | cluster | cfs-anti | cfs-not |
+    kinds: pure | mixed | product-basis | orthogonal | orthogonal-mixed | lindep | pair | orthopair | cluster | cfs-anti | cfs-not |
            superset-trine | identical | named:<name>
     """
     rng = np.random.default_rng([int(p.get("seed", 0)), 7])
@@ -255,6 +257,14 @@ def build(p):
         u = haar(2, rng, field)
         kets = [u @ k for k in base] + [rand_ket(2, rng, field) for _ in range(n - 3)]
         d = 2
+    elif kind == "product-basis":
+        # n members of a locally rotated product basis of C^da (x) C^db: perfectly distinguishable by a product measurement
+        da, db = int(p["da"]), int(p["db"])
+        ua, ub = haar(da, rng, field), haar(db, rng, field)
+        idx = [(a, b) for a in range(da) for b in range(db)]
+        pick = rng.permutation(len(idx))[:n]
+        kets = [np.kron(ua[:, idx[j][0]], ub[:, idx[j][1]]) for j in pick]
+        d = da * db
     elif kind == "identical":
         r0 = rand_dm(d, rng, field, int(p.get("rank", 0)))
         rhos = [r0.copy() for _ in range(n)]
@@ -522,5 +532,8 @@ def compare_snapshot(snap, states, probs, who):
         raise Violation("%s modified the caller's list of probabilities" % who)
 
 
-def product(*lists):
-    return list(itertools.product(*lists))
+def pick(seq, *key):
+    """deterministic, seed-independent pseudo-random choice (decorrelates the cycled options from the loop structure)"""
+    import zlib
+
+    return seq[zlib.crc32(repr((list(seq), key)).encode()) % len(seq)]
